@@ -49,12 +49,33 @@ class Canon:
     # ---- class alias tables -------------------------------------------
     def alias_table(self, cls):
         """For `self.X = {k0: {'a': self.Y, ...}}` in __init__:
-        (X, 'a') -> Y  (the outer key is ignored: there is one cluster)."""
+        (X, 'a') -> Y  (the outer key is ignored: there is one cluster).  Also when the record is
+        put together through locals (`state = {...}; self.Y = state['a']; self.X = {k0: state}`):
+        two expressions are the same object when they resolve to the same display."""
         if cls.name in self._alias_tables:
             return self._alias_tables[cls.name]
         tab = {}
         init = cls.find_method('__init__')
         if init:
+            env = init_objects(init.node)
+            attrs = {k[5:]: v for k, v in env.items() if k.startswith('self.')}
+            for x, vx in attrs.items():
+                if not isinstance(vx, ast.Dict):
+                    continue
+                for outer in vx.values:
+                    outer = resolve_object(outer, env)
+                    if not isinstance(outer, ast.Dict):
+                        continue
+                    for k, v in zip(outer.keys, outer.values):
+                        if not isinstance(k, ast.Constant):
+                            continue
+                        ov = resolve_object(v, env)
+                        if not isinstance(ov, (ast.Dict, ast.List, ast.Set, ast.ListComp)):
+                            continue
+                        for y, vy in attrs.items():
+                            if y != x and vy is ov:
+                                tab[(x, k.value)] = y
+        if init and not tab:
             for n in walk_no_nested(init.node):
                 if isinstance(n, ast.Assign) and len(n.targets) == 1:
                     t = n.targets[0]
@@ -94,6 +115,15 @@ class Canon:
                 break
             if isinstance(e, (ast.List, ast.Tuple)) and not e.elts:
                 continue
+            if isinstance(e, ast.Name):
+                # a local that is either None (nothing there: the getter answers with an empty
+                # list on that path) or one location: the getter copies that location
+                from .paths import assigned_names
+                defs = [d_ for d_ in assigned_names(func).get(e.id, []) if isinstance(d_, ast.Assign)]
+                vals = [d_.value for d_ in defs if not (isinstance(d_.value, ast.Constant) and d_.value.value is None)]
+                if defs and len(vals) == 1 and isinstance(vals[0], (ast.Attribute, ast.Subscript)) and any(
+                        isinstance(r2.value, ast.List) and not r2.value.elts for r2 in rets if r2.value is not None):
+                    e = vals[0]
             if src is None:
                 src = e
             elif ast.dump(e) != ast.dump(src):
@@ -751,6 +781,38 @@ def zip_map(pa, pb):
         v = b[0].replace('elem(%s.values())' % a[1], '%s[elem(%s)]' % (a[1], a[1]))
         return 'map[%s: %s for %s]' % (a[0], v, a[1])
     return None
+
+
+def resolve_object(e, env, d=0):
+    """the display (allocation site) an expression of a constructor denotes: locals and self
+    attributes are looked up, constant subscripts of dict displays are followed"""
+    if d > 8 or e is None:
+        return e
+    if isinstance(e, ast.Name) and e.id in env:
+        return resolve_object(env[e.id], env, d + 1)
+    if isinstance(e, ast.Attribute) and isinstance(e.value, ast.Name) and e.value.id == 'self' and 'self.' + e.attr in env:
+        return resolve_object(env['self.' + e.attr], env, d + 1)
+    if isinstance(e, ast.Subscript) and isinstance(e.slice, ast.Constant):
+        base = resolve_object(e.value, env, d + 1)
+        if isinstance(base, ast.Dict):
+            for k, v in zip(base.keys, base.values):
+                if isinstance(k, ast.Constant) and k.value == e.slice.value:
+                    return resolve_object(v, env, d + 1)
+    return e
+
+
+def init_objects(fn):
+    """{local name | 'self.attr': value node} after the top-level assignments of a constructor
+    (single assignment per name; conditional statements are not followed)"""
+    env = {}
+    for st in fn.body:
+        if isinstance(st, ast.Assign) and len(st.targets) == 1:
+            t = st.targets[0]
+            if isinstance(t, ast.Name):
+                env[t.id] = resolve_object(st.value, env)
+            elif isinstance(t, ast.Attribute) and isinstance(t.value, ast.Name) and t.value.id == 'self':
+                env['self.' + t.attr] = resolve_object(st.value, env)
+    return env
 
 
 class ProvCanon(Canon):
@@ -1816,6 +1878,20 @@ def fold_term(kind, lits, comps, dflt):
     lits = list({repr(x): x for x in lits}.values())
     if lits:
         dflt = None          # never empty
+    # max({b over P if b > D}, default=D) == max(D, {b over P}): an element the filter drops is <= D
+    # and so cannot win against D; if nothing passes the filter the answer is D either way
+    if not lits and dflt is not None and dflt.is_const() and comps and all(len(c) > 2 and len(c[2]) == 1 for c in comps):
+        same = True
+        for c in comps:
+            a, _strict = c[2][0]
+            d_ = a - c[1] if kind == 'max' else a + c[1]
+            cval = (-d_.const if kind == 'max' else d_.const) if d_.is_const() else None
+            if cval is None or cval != dflt.const:
+                same = False
+        if same:
+            lits = [dflt]
+            comps = [(c[0], c[1], ()) for c in comps]
+            dflt = None
     # a filter that only drops elements which cannot win is no filter:
     #   max{L; over P if body > c: body} == max{L; over P: body}   when c <= L  (min: mirrored)
     norm = []
